@@ -371,16 +371,31 @@ func ruleOverride(c *Ctx) {
 					return top, false
 				}
 				var ret *ssa.Return
-				var retErr fval
+				var retErr, retVal fval
 				fd.hook = func(in ssa.Instruction, val func(ssa.Value) fval) bool {
 					if r, ok := in.(*ssa.Return); ok && len(r.Results) == 2 {
-						ret, retErr = r, val(r.Results[1])
+						ret, retErr, retVal = r, val(r.Results[1]), val(r.Results[0])
 					}
 					return false
 				}
 				fd.foldCall(gf, []fval{top})
 				if ret == nil {
 					continue // does not fold for this probe: nothing is claimed
+				}
+				// a number the getter hands over unchecked is one the type's validator accepts (what `write conv` prints
+				// from a flag must be a document `write` reads)
+				if retErr.isNil && retVal.k != nil {
+					if T := namedOf(ret.Results[0].Type()); T != nil {
+						if vm, ok := c.validatedTypes()[T]; ok {
+							if vfn := c.Prog.FuncValue(vm); vfn != nil {
+								rv := retVal
+								rv.t = T
+								if verdict, err := c.newFolder().foldCall(vfn, []fval{rv}); err == nil && verdict.nonNil {
+									problem = fmt.Sprintf("the value %s is handed over as a %s although %s.%s refuses it: the flag accepts what the YAML reader rejects, so `write conv` prints a document `write` cannot read", used.k.ExactString(), typeName(T), typeName(T), vm.Name())
+								}
+							}
+						}
+					}
 				}
 				isSentinel := retErr.nonNil && retErr.errID == sentinelID
 				if i == 0 && !isSentinel && (retErr.isNil || (retErr.nonNil && retErr.errID != 0)) {
@@ -458,10 +473,93 @@ func (c *Ctx) narrowingConversions() []*ssa.Convert {
 					}
 				}
 			}
+			// a quotient or remainder by a known number of 2 or more: a non-negative source divided by k is at most max/k,
+			// a remainder below k
+			if slo >= 0 {
+				if b, ok := cv.X.(*ssa.BinOp); ok && (b.Op == token.QUO || b.Op == token.REM) {
+					if k, ok := c.evalGlobalExpr(b.Y, 0); ok {
+						if kv, exact := constant.Float64Val(constant.ToFloat(k)); exact || kv > 0 {
+							if kv >= 2 && ((b.Op == token.QUO && shi/kv <= dhi) || (b.Op == token.REM && kv-1 <= dhi)) {
+								return
+							}
+						}
+					}
+				}
+			}
 			out = append(out, cv)
 		})
 	}
 	return out
+}
+
+// evalGlobalExpr: the value of an integer expression made of constants and fields of immutable package-level values
+// (`perfect8.Value - 1`), whatever the function's arguments are.
+func (c *Ctx) evalGlobalExpr(v ssa.Value, depth int) (constant.Value, bool) {
+	if depth > 6 {
+		return nil, false
+	}
+	switch x := v.(type) {
+	case *ssa.Const:
+		if x.Value != nil && x.Value.Kind() == constant.Int {
+			return x.Value, true
+		}
+	case *ssa.Convert:
+		return c.evalGlobalExpr(x.X, depth+1)
+	case *ssa.ChangeType:
+		return c.evalGlobalExpr(x.X, depth+1)
+	case *ssa.BinOp:
+		a, ok1 := c.evalGlobalExpr(x.X, depth+1)
+		b, ok2 := c.evalGlobalExpr(x.Y, depth+1)
+		if ok1 && ok2 {
+			switch x.Op {
+			case token.ADD, token.SUB, token.MUL:
+				return constant.BinaryOp(a, x.Op, b), true
+			}
+		}
+	case *ssa.UnOp:
+		if x.Op != token.MUL {
+			return nil, false
+		}
+		// a load of (a field of) a package-level value
+		var path []string
+		addr := x.X
+		for {
+			fa, ok := addr.(*ssa.FieldAddr)
+			if !ok {
+				break
+			}
+			n, _, _ := fieldName(fa)
+			path = append([]string{n}, path...)
+			addr = fa.X
+		}
+		g, ok := addr.(*ssa.Global)
+		if !ok {
+			return nil, false
+		}
+		cur := c.globalTable(g)
+		if cur.cv != nil {
+			cur = fromVal(cur.cv)
+		}
+		for _, p := range path {
+			if cur.fields == nil {
+				if cur.cv != nil {
+					cur = fromVal(cur.cv)
+				}
+				if cur.fields == nil {
+					return nil, false
+				}
+			}
+			nxt, ok := cur.fields[p]
+			if !ok {
+				return nil, false
+			}
+			cur = nxt
+		}
+		if cur.k != nil && cur.k.Kind() == constant.Int {
+			return cur.k, true
+		}
+	}
+	return nil, false
 }
 
 // reviewedNarrowing: the integer conversions of the reviewed tree that go to a type which cannot hold every value of the
@@ -493,5 +591,73 @@ func (c *Ctx) checkNarrowPairs() {
 		}
 		ac := &affCtx{c: c, fn: fn, alias: map[ssa.Value]string{}}
 		c.bad("narrow|"+pair, c.pos(cv.Pos()), fname(fn), fmt.Sprintf("%s converts %s (a %s) to %s, which cannot hold every value of the source type, and no such conversion was reviewed: values outside the target's range wrap around silently (a tempo of 300 written as 44, say) instead of being kept or refused", fname(fn), ac.describe(cv.X), typeName(cv.X.Type()), typeName(cv.Type())))
+	}
+}
+
+// ---------------------------------------------------------------------------
+// hidden state
+
+// reviewedMutableGlobals: package-level variables of the music-theory and writer packages that are written after
+// initialisation, with the reason that is harmless.
+var reviewedMutableGlobals = map[string]string{}
+
+// checkNoHiddenState: the packages that compute pitches, intervals, scales and events keep no state between calls: a
+// package-level variable is written by the package initialiser only. A memo table or a cache there makes the answer for
+// one input depend on what was asked before (and is where a wrong key for the memo hides).
+func (c *Ctx) checkNoHiddenState() {
+	if c.hiddenStateChecked {
+		return
+	}
+	c.hiddenStateChecked = true
+	for _, pk := range []string{"note", "op", "chord", "util", "play", "midix", "astconv", "input", "desc"} {
+		sp := c.ssapkg(pk)
+		if sp == nil {
+			continue
+		}
+		var names []string
+		for n, m := range sp.Members {
+			if _, ok := m.(*ssa.Global); ok {
+				names = append(names, n)
+			}
+		}
+		sort.Strings(names)
+		for _, n := range names {
+			g := sp.Members[n].(*ssa.Global)
+			if strings.HasPrefix(n, "init$") || g.Object() == nil {
+				continue
+			}
+			writer := ""
+			for _, fn := range c.srcFuncs() {
+				if fn.Name() == "init" && fn.Synthetic != "" {
+					continue
+				}
+				if fn.Parent() != nil && fn.Parent().Name() == "init" && fn.Parent().Synthetic != "" {
+					continue // a function literal of an initialiser
+				}
+				allInstrs(fn, func(in ssa.Instruction) {
+					switch x := in.(type) {
+					case *ssa.Store:
+						if addrRoot(x.Addr) == ssa.Value(g) {
+							writer = fname(fn)
+						}
+					case *ssa.MapUpdate:
+						if ld, ok := x.Map.(*ssa.UnOp); ok && ld.X == ssa.Value(g) {
+							writer = fname(fn)
+						}
+					}
+				})
+			}
+			c.site(1)
+			key := "state|" + pk + "." + n
+			if writer == "" {
+				c.ok(key, c.pos(g.Pos()), "", "written by the package initialiser only")
+				continue
+			}
+			if why, ok := reviewedMutableGlobals[pk+"."+n]; ok {
+				c.ok(key, c.pos(g.Pos()), writer, "reviewed: "+why)
+				continue
+			}
+			c.bad(key, c.pos(g.Pos()), writer, fmt.Sprintf("%s.%s is written by %s after initialisation: the package keeps state between calls, so what a chord, interval or key gives depends on what was computed before it (a memo table answers for the wrong input as soon as its key leaves something out)", pk, n, writer))
+		}
 	}
 }
